@@ -10,7 +10,7 @@ Import ListNotations.
 From BB Require Import BN Brute SpaceFacts TrapFacts PercolateFacts AttractorFacts Diagram Invariants Checks Filter
   Strict PetriNet Control Meta FilterFacts PetriNetFacts TrappistFacts DiagramStruct DiagramSem1 DiagramCache
   DiagramDepth DiagramComplete Termination ControlFacts MetaFacts Candidates StrictFacts MinExpandFacts CandidatesFacts SymbolicTest SymbolicTestFacts Signed ReductionFacts ControlFacts2 Main Blocks BlocksFacts ObsFacts OwnerFacts CandidatesTerm
-  PartialOwner BlockMath BlockComplete ASeeds ASeedsFacts LogChecks SkipRule SkipRuleFacts Names NamesFacts Perm PermFacts SCC SCCFacts SCCStruct ControlFacts3 SCCTerm FilterSym Main2 StrategyFacts ControlFacts4.
+  PartialOwner BlockMath BlockComplete ASeeds ASeedsFacts LogChecks SkipRule SkipRuleFacts Names NamesFacts Perm PermFacts SCC SCCFacts SCCStruct ControlFacts3 SCCTerm FilterSym Main2 StrategyFacts ControlFacts4 PyLib PySrc PySrcFacts.
 
 Theorem C10_net_to_pn_faithful : forall (N : net) (impl : nat -> bool -> list space), impl_wf (nvars N) impl -> impl_cover N impl -> pn_faithful N (net_to_pn (nvars N) impl).
 Proof. exact net_to_pn_faithful. Qed.
@@ -55,6 +55,13 @@ Proof. exact place_round_trip. Qed.
 Theorem C10_place_name_inj : forall (v : name) (b : bool) (w : name) (c : bool), place_name v b = place_name w c -> v = w /\ b = c.
 Proof. exact place_name_inj. Qed.
 
+(* translator tie: generated from the current source of petri_net_translation.variable_to_place *)
+Theorem C10_source_variable_to_place : forall (v : pstr) (b : bool), py_variable_to_place v b = Some (place_name v b).
+Proof. exact py_variable_to_place_spec. Qed.
+
+Theorem C10_source_place_to_variable : forall p : pstr, py_place_to_variable p = place_to_variable p.
+Proof. exact py_place_to_variable_spec. Qed.
+
 Print Assumptions C10_net_to_pn_faithful.
 Print Assumptions C10_pn_faithful_b_spec.
 Print Assumptions C10_pn_faithful_trans.
@@ -68,3 +75,5 @@ Print Assumptions C10_fix_net_trap_space.
 Print Assumptions C10_fix_net_percolate.
 Print Assumptions C10_place_round_trip.
 Print Assumptions C10_place_name_inj.
+Print Assumptions C10_source_variable_to_place.
+Print Assumptions C10_source_place_to_variable.
